@@ -174,7 +174,7 @@ func (cw *cryptoWorld) reveal(p *protected, data, hash []byte, client string, pr
 	return out
 }
 
-var c01Lengths = []int{0, 1, 2, 13, 14, 18, 43, 44, 45, 46, 83, 84, 85, 136, 137, 138, 255, 256, 300, 1000, 4096, 65535}
+var c01Lengths = []int{0, 1, 2, 13, 14, 18, 43, 44, 45, 46, 83, 84, 85, 136, 137, 138, 250, 251, 252, 255, 256, 300, 1000, 4096, 65535, 65536}
 
 func c01Plain(r *kernel.RNG, class, lenIdx int, embed []byte) []byte {
 	n := c01Lengths[lenIdx%len(c01Lengths)]
@@ -203,7 +203,7 @@ func (C01) ID() string { return "C01" }
 func (C01) Explore(x *kernel.Explorer, seed uint64) {
 	r := kernel.NewRNG(seed, 0xc01)
 	for i := 0; i < 3 && !x.Expired(); i++ {
-		plan := &kernel.Plan{Prop: "C01", Seed: kernel.Mix(seed, uint64(i)), Swarm: map[string]int64{"ksv2": int64(r.Intn(3) / 2), "mysql": int64(r.Intn(3) / 2), "depeof": int64(r.Intn(2)), "wyield": int64(r.Intn(2)), "chunk": int64(r.Intn(4))}}
+		plan := &kernel.Plan{Prop: "C01", Seed: kernel.Mix(seed, uint64(i)), Swarm: map[string]int64{"conc": int64(r.Intn(2)), "ksv2": int64(r.Intn(3) / 2), "mysql": int64(r.Intn(3) / 2), "depeof": int64(r.Intn(2)), "rawmy": int64(r.Intn(2)), "reexec": int64(r.Intn(2)), "wyield": int64(r.Intn(2)), "chunk": int64(r.Intn(4))}}
 		n := 2 + r.Intn(6)
 		for j := 0; j < n; j++ {
 			plan.Ops = append(plan.Ops, kernel.Op{ID: j + 1, Kind: "roundtrip", A: []int64{
@@ -291,6 +291,10 @@ func (C01) Run(t *testing.T, plan *kernel.Plan, keepLog bool) *kernel.Result {
 			w.EndOp(0, "ok")
 			w.State(fmt.Sprintf("%s class=%d len=%d rot=%d", entry, op.Arg(1, 0)%6, len(plain), op.Arg(3, 0)))
 		}
+		if plan.Sw("conc") == 1 && plan.Sw("ksv2") == 0 && !w.Res.Cut {
+			// requests of several clients side by side on one translator service: each gets its own value back
+			c02Conc(w, cw, plan, "C01")
+		}
 		w.Res.SimNanos = int64(time.Since(start))
 	})
 	return w.Finish()
@@ -305,7 +309,7 @@ func (C02) ID() string { return "C02" }
 func (C02) Explore(x *kernel.Explorer, seed uint64) {
 	r := kernel.NewRNG(seed, 0xc02)
 	for i := 0; i < 3 && !x.Expired(); i++ {
-		plan := &kernel.Plan{Prop: "C02", Seed: kernel.Mix(seed, uint64(i)), Swarm: map[string]int64{"tls": int64(r.Intn(2)), "ksv2": int64(r.Intn(3) / 2), "mysql": int64(r.Intn(3) / 2), "depeof": int64(r.Intn(2)), "wyield": int64(r.Intn(2)), "chunk": int64(r.Intn(4)), "conc": int64(r.Intn(2))}}
+		plan := &kernel.Plan{Prop: "C02", Seed: kernel.Mix(seed, uint64(i)), Swarm: map[string]int64{"tls": int64(r.Intn(2)), "ksv2": int64(r.Intn(3) / 2), "mysql": int64(r.Intn(3) / 2), "depeof": int64(r.Intn(2)), "rawmy": int64(r.Intn(2)), "reexec": int64(r.Intn(2)), "wyield": int64(r.Intn(2)), "chunk": int64(r.Intn(4)), "conc": int64(r.Intn(2))}}
 		n := 2 + r.Intn(6)
 		for j := 0; j < n; j++ {
 			plan.Ops = append(plan.Ops, kernel.Op{ID: j + 1, Kind: "cross", A: []int64{
@@ -376,7 +380,7 @@ func (C02) Run(t *testing.T, plan *kernel.Plan, keepLog bool) *kernel.Result {
 			c02TLS(w, cw)
 		}
 		if plan.Sw("conc") == 1 && plan.Sw("ksv2") == 0 {
-			c02Conc(w, cw, plan)
+			c02Conc(w, cw, plan, "C02")
 		}
 		// different clients always get different keys
 		seen := map[string]string{}
@@ -406,7 +410,7 @@ func (C03) ID() string { return "C03" }
 func (C03) Explore(x *kernel.Explorer, seed uint64) {
 	r := kernel.NewRNG(seed, 0xc03)
 	for i := 0; i < 2 && !x.Expired(); i++ {
-		plan := &kernel.Plan{Prop: "C03", Seed: kernel.Mix(seed, uint64(i)), Swarm: map[string]int64{"chunk": 0, "mysql": int64(r.Intn(3) / 2), "depeof": int64(r.Intn(2)), "wyield": int64(r.Intn(2))}}
+		plan := &kernel.Plan{Prop: "C03", Seed: kernel.Mix(seed, uint64(i)), Swarm: map[string]int64{"chunk": 0, "mysql": int64(r.Intn(3) / 2), "depeof": int64(r.Intn(2)), "rawmy": int64(r.Intn(2)), "reexec": int64(r.Intn(2)), "wyield": int64(r.Intn(2))}}
 		for j := 0; j < 2; j++ {
 			plan.Ops = append(plan.Ops, kernel.Op{ID: j + 1, Kind: "mutate", A: []int64{int64(r.Intn(len(protectEntries))), int64(r.Intn(3)), int64(r.Intn(1000))}})
 		}
